@@ -155,8 +155,66 @@ fn all_pairs<T: Sync>(
 
 const SIGMA: [&str; 12] = ["0", "1", "2", "a", "b", "A", ".", "-", "_", "~", "^", "é"];
 
+/// Very long strings, in worker processes (a comparison that recurses per character or per marker dies with a stack
+/// overflow, which an in-process check could not report).
+pub fn sweeps(_ctx: &Ctx) -> Vec<crate::sweep::Sweep> {
+    let units = ["~", "^", "1", "0", "a", ".", "1.", "a1", "~1", "^a", "-", "é"];
+    let lens = [1_000usize, 30_000, 300_000];
+    let tails = ["", "1", "a", "~", "2"];
+    // items: unit repeated n times + tail; all ordered pairs of items that share a unit and a length (long common prefixes),
+    // plus each long item against a few short strings
+    let mut items: Vec<(usize, usize, usize)> = vec![];
+    for u in 0..units.len() {
+        for l in 0..lens.len() {
+            for t in 0..tails.len() {
+                items.push((u, l, t));
+            }
+        }
+    }
+    let nt = tails.len() as u64;
+    let n = (units.len() * lens.len()) as u64 * nt * (nt + 3);
+    vec![crate::sweep::Sweep::new("long-runs", format!("strings made of {} repetitions of each of {:?} followed by each of {:?}: every ordered pair of two such strings with the same unit and length (common prefixes of up to 600 000 bytes), and each of them against \"\", \"1\" and the unit itself, through Evr::cmp and rpm_evr_compare; oracle = the rpmvercmp port; run in worker processes so that a stack overflow or a stall is observed and reported", lens.iter().map(|l| l.to_string()).collect::<Vec<_>>().join(" / "), units, tails), n, move |i, acc| {
+        let group = i / (nt * (nt + 3));
+        let (u, l) = ((group / lens.len() as u64) as usize, (group % lens.len() as u64) as usize);
+        let within = i % (nt * (nt + 3));
+        let (ta, other) = ((within / (nt + 3)) as usize, within % (nt + 3));
+        let mk = |t: usize| format!("{}{}", units[u].repeat(lens[l]), tails[t]);
+        let a = mk(ta);
+        let b = if other < nt { mk(other as usize) } else { ["".to_string(), "1".to_string(), units[u].to_string()][(other - nt) as usize].clone() };
+        acc.evals += 1;
+        let case = || json!({"a": format!("{:?} × {} + {:?}", units[u], lens[l], tails[ta]), "b": if other < nt { format!("{:?} × {} + {:?}", units[u], lens[l], tails[other as usize]) } else { format!("{:?}", b) }});
+        let r = catch(|| (Evr::new("", a.as_str(), "").cmp(&Evr::new("", b.as_str(), "")), rpm::rpm_evr_compare(&a, &b), Evr::new("", b.as_str(), "").cmp(&Evr::new("", a.as_str(), ""))));
+        match r {
+            Err(p) => acc.viol(panic_violation("long-runs", &p, case()).rank(i)),
+            Ok((ab, s_ab, ba)) => {
+                acc.nontrivial += 1;
+                let want = rpmvercmp(a.as_bytes(), b.as_bytes());
+                acc.count(&format!("{:?}", want));
+                if ab != want || ba != want.reverse() {
+                    acc.viol(Violation::new("long-runs", format!("cmp gives {:?} / swapped {:?}, rpmvercmp says {:?}", ab, ba, want), case()).sig("clause", "equals-reference").rank(i));
+                }
+                // the string entry point splits at the first ':' and '-': only compare when the texts contain neither
+                if !a.contains(['-', ':']) && !b.contains(['-', ':']) && s_ab != want {
+                    acc.viol(Violation::new("long-runs", format!("rpm_evr_compare gives {:?}, rpmvercmp says {:?}", s_ab, want), case()).sig("clause", "equals-reference").rank(i));
+                }
+            }
+        }
+    })]
+}
+
 pub fn run(ctx: &Ctx) -> i32 {
     let mut subs = vec![];
+    for s in sweeps(ctx) {
+        let (mut sub, events) = crate::sweep::run_sweep(ctx, &s);
+        for e in &events {
+            sub.acc.viol(
+                Violation::new(&s.name, format!("worker {} on case {}: {}", e.kind, e.index, e.stderr_tail.lines().last().unwrap_or("")), json!({"sweep": s.name, "index": e.index}))
+                    .sig("clause", if e.kind == "hang" { "no-hang" } else { "no-abort" })
+                    .rank(e.index),
+            );
+        }
+        subs.push(sub);
+    }
     let lib_cmp = |a: &String, b: &String| Evr::new("", a.as_str(), "").cmp(&Evr::new("", b.as_str(), ""));
     let ref_cmp = |a: &String, b: &String| rpmvercmp(a.as_bytes(), b.as_bytes());
     let show = |a: &String| json!(a);
